@@ -45,11 +45,13 @@ static std::vector<MV> string_cells(bool full) {
 }
 static std::vector<MV> scalar_cells() { return {MV::uint64(1), MV::dbl(-1.5), MV::boolean(true), MV::boolean(false), MV::null(), MV::int64(-7)}; }
 
+static std::vector<std::string> g_names;   // column names of the table under construction (default c0, c1, ...)
+static std::string colname(size_t k) { return k < g_names.size() ? g_names[k] : "c" + std::to_string(k); }
 static json build_table(const std::vector<std::vector<MV>>& rows, int mapping) {
     size_t ncol = rows[0].size();
     if (mapping == 0) { json t(jsoncons::json_array_arg); for (auto& r : rows) { json a(jsoncons::json_array_arg); for (auto& c : r) a.push_back(from_mv<json>(c)); t.push_back(a); } return t; }
-    if (mapping == 1) { json t(jsoncons::json_array_arg); for (auto& r : rows) { json o(jsoncons::json_object_arg); for (size_t k = 0; k < ncol; ++k) o.try_emplace("c" + std::to_string(k), from_mv<json>(r[k])); t.push_back(o); } return t; }
-    json t(jsoncons::json_object_arg); for (size_t k = 0; k < ncol; ++k) { json col(jsoncons::json_array_arg); for (auto& r : rows) col.push_back(from_mv<json>(r[k])); t.try_emplace("c" + std::to_string(k), col); } return t;
+    if (mapping == 1) { json t(jsoncons::json_array_arg); for (auto& r : rows) { json o(jsoncons::json_object_arg); for (size_t k = 0; k < ncol; ++k) o.try_emplace(colname(k), from_mv<json>(r[k])); t.push_back(o); } return t; }
+    json t(jsoncons::json_object_arg); for (size_t k = 0; k < ncol; ++k) { json col(jsoncons::json_array_arg); for (auto& r : rows) col.push_back(from_mv<json>(r[k])); t.try_emplace(colname(k), col); } return t;
 }
 
 static bool field_needs_quote(const std::string& s, const CsvOpt& o) { return s.find(o.delim) != std::string::npos || s.find(o.quote) != std::string::npos || s.find('\n') != std::string::npos || s.find('\r') != std::string::npos; }
@@ -70,6 +72,7 @@ static void check_table(const std::vector<std::vector<MV>>& rows, const CsvOpt& 
     json t = build_table(rows, o.mapping);
     csv::csv_options opt = mk(o);
     std::string cells; for (auto& r : rows) { if (!cells.empty()) cells += ";"; for (size_t k = 0; k < r.size(); ++k) { if (k) cells += ","; cells += cell_enc(r[k]); } }
+    if (!g_names.empty()) { cells += "|N"; for (auto& n : g_names) cells += hex(n) + ","; }
     std::string sig = "CSV|" + std::to_string(oi) + "|" + cells;
     std::string what = "csv " + optname(o) + " table=" + mv_text(to_mv(t)) + " :: ";
     std::string text;
@@ -102,6 +105,21 @@ static void run_csv(bool thorough, int slice, int nslices) {
         for (auto& a : cellsA) for (auto& b : cellsB) { if ((int)(idx++ % nslices) != slice) continue; check_table({{a, b}}, o, (int)oi, "1x2"); check_table({{a}, {b}}, o, (int)oi, "2x1"); }
         if (thorough) for (auto& a : cellsB) for (auto& b : cellsA) { if ((int)(idx++ % nslices) != slice) continue; check_table({{a, b}}, o, (int)oi, "1x2"); check_table({{a}, {b}}, o, (int)oi, "2x1"); }
         for (auto& a : cellsB) for (auto& b : cellsB) { if ((int)(idx++ % nslices) != slice) continue; for (auto& c2 : cellsB) for (auto& d : (thorough ? cellsB : std::vector<MV>{cellsB[1], cellsB[3], cellsB.back()})) check_table({{a, b}, {c2, d}}, o, (int)oi, "2x2"); }
+    }
+    // column names over the string alphabet (the header line is written and read by the same rules as any other record)
+    for (size_t oi = 0; oi < opts.size(); ++oi) {
+        const CsvOpt& o = opts[oi];
+        if (o.mapping == 0) continue;
+        for (auto& a : full) for (auto& b : small) {
+            if (a.s.empty() || b.s.empty() || a.s == b.s) continue;     // names are unique and non-empty
+            if ((int)(idx++ % nslices) != slice) continue;
+            g_names = {a.s, b.s};
+            check_table({{MV::str("v"), MV::str("w")}}, o, (int)oi, "names");
+            if (thorough) check_table({{MV::str("v"), MV::str("w")}, {MV::str("x"), MV::str("y,")}}, o, (int)oi, "names");
+            g_names = {b.s, a.s};
+            check_table({{MV::str("v"), MV::str("w")}}, o, (int)oi, "names");
+            g_names.clear();
+        }
     }
     out().cls("csv");
 }
@@ -182,6 +200,7 @@ int main(int argc, char** argv) {
             auto opts = csv_opts(); int oi = atoi(p[1].c_str());
             std::vector<std::vector<MV>> rows;
             for (auto& r : split(p[2], ';')) { rows.emplace_back(); for (auto& c : split(r, ',')) rows.back().push_back(cell_dec(c)); }
+            for (size_t k = 3; k < p.size(); ++k) if (!p[k].empty() && p[k][0] == 'N') { g_names.clear(); for (auto& n : split(p[k].substr(1), ',')) if (!n.empty()) g_names.push_back(unhex(n)); }
             if (oi >= 0 && oi < (int)opts.size()) check_table(rows, opts[oi], oi, "replay");
         } else if (p[0] == "TOON" && p.size() >= 4) run_toon(p[2] == "t", 0, 1, atoi(p[1].c_str()), atol(p[3].c_str()));
         out().flush(); return 0;
